@@ -413,7 +413,7 @@ def run_check(prop, tier, verif_seed, n_runs=None, budget=None, workers=None,
         r, v = lst[0]
         scen = r["scenario"]
         small, steps = shrink(prop, scen, v["class"], k[1],
-                              budget_s=30 if tier == "quick" else 120)
+                              budget_s=float(os.environ.get("VERIF_SHRINK_S", 30 if tier == "quick" else 120)))
         summ, err = execute_scenario(prop, small)
         v2 = v
         digest = ""
